@@ -11,6 +11,11 @@ def _sizes(tier, k):
 def main(tier, t0):
     tasks = stage_check.tasks_for("C11", tier, scenario="single", sizes=_sizes, cfg={"want_shacl": True},
                                   structure_filter=lambda st: st.get("mode") != "shapemap")
+    # classes requested through target_classes, one of them without instances: with remove_empty_shapes off both outputs hold its empty shape
+    tasks += [(m, f, "targets/" + ob, dict(kw, cfg=dict(kw["cfg"], targets=["C", "Z"]))) for (m, f, ob, kw) in
+              stage_check.tasks_for("C11", tier, scenario="single", sizes=lambda t, k: [k + 1], cfg={"want_shacl": True}, structure_filter=lambda st: st["name"] in ("opt-literal", "two-datatypes"))]
+    # both documents written to files hold what the strings hold (long outputs: buffered writer) - concrete replays shared with C18
+    tasks += [("harness.api", "run_history", "api/" + n, dict(name=n)) for n in ("file-vs-string", "file-vs-string-10000-lines")]
     tasks += step_check.tasks("C11", tier)
     return stage_check.main("C11", tier, t0, tasks=tasks, extra_meta=dict(functions_encoded=step_check.meta("C11")["functions_encoded"]),
                             explanation="on every path both real serializers run on the same shape list of one Shaper; the ShExC parse and the SHACL graph are reduced to "
